@@ -249,7 +249,7 @@ def self_attr(e: ast.AST | None, attr: str | None = None, base: str = "self") ->
 NOVALUE = object()
 
 
-_SENTINELS: dict[tuple[str, str], "Abs"] = {}
+_SENTINELS: dict[tuple, "Abs"] = {}
 
 
 def module_sentinel(mod, e: ast.AST | None) -> object:
@@ -730,8 +730,21 @@ class Scenario:
             if owner is None:
                 return NOVALUE
             kinds = {k for k, _ in self.deps.defs(owner, e.id)}
+            if kinds == {"def"}:
+                # a nested function bound once by its `def`: one abstract function object per definition
+                dn_ = [n for k, n in self.deps.defs(owner, e.id)]
+                if len(dn_) == 1 and isinstance(dn_[0], (ast.FunctionDef, ast.AsyncFunctionDef)):
+                    key = ("def", owner.qualname, e.id)
+                    if key not in _SENTINELS:
+                        _SENTINELS[key] = Abs("function", "Callable", "object", tag=f"def:{owner.qualname}.{e.id}")  # type: ignore[index]
+                    return _SENTINELS[key]  # type: ignore[index]
+                return NOVALUE
             if kinds - {"value"}:
                 return NOVALUE
+            if owner is self.deps.fi and e.id not in self._defnodes:
+                cap = self._whole_subject_capture(e.id)
+                if cap is not NOVALUE:
+                    return cap
             if owner is not self.deps.fi:
                 sv = self.deps.single_value(e.id)
                 return eval_expr(sv, self.env) if sv is not None and not isinstance(sv, (ast.Await, ast.Yield)) else NOVALUE
@@ -781,6 +794,34 @@ class Scenario:
                 return first if all(v is None for v in vals) else NOVALUE
             return NOVALUE
         return NOVALUE
+
+    def _whole_subject_capture(self, name: str) -> object:
+        """`case name:` / `case <pattern> as name:` bind the whole match subject: in the arms reachable in this scenario
+        the name has the subject's value (all its bindings must be of this kind)."""
+        arms = []
+        for n in self.g.nodes:
+            if n.kind == "match-case" and isinstance(n.ast, ast.match_case):
+                binds = [pn for pn in ast.walk(n.ast.pattern) if isinstance(pn, (ast.MatchAs, ast.MatchStar)) and pn.name == name] + [pn for pn in ast.walk(n.ast.pattern) if isinstance(pn, ast.MatchMapping) and pn.rest == name]
+                if not binds:
+                    continue
+                if not (len(binds) == 1 and binds[0] is n.ast.pattern and isinstance(binds[0], ast.MatchAs)):
+                    return NOVALUE  # bound to a part of the subject
+                arms.append(n)
+        if not arms:
+            return NOVALUE
+        n_bind = len([1 for k, _ in self.deps.defs(self.deps.fi, name)])
+        if n_bind != len(arms):
+            return NOVALUE
+        live = [n for n in arms if n.id in self.reach and any(lab == "T" and not self._known_skip(n, t, lab) for t, lab in n.succ)]
+        vals = []
+        for n in live:
+            m = parent(n.ast)
+            if not isinstance(m, ast.Match):
+                return NOVALUE
+            vals.append(eval_expr(m.subject, self.env))
+        if not vals or any(v is NOVALUE for v in vals) or any(v is not vals[0] and v != vals[0] for v in vals):
+            return NOVALUE
+        return vals[0]
 
     def skip(self, a: Node, b: Node, lab: str) -> bool:
         if self.edge is not None and self.edge(a, b, lab):
